@@ -424,7 +424,11 @@ def r_main_flag(e, R):
             "the main-module path/name is shipped regardless of the flag", e.loc(gp, gp.node))
     pr = e.prog.func(f"{SP}:prepare")
     pg = e.cfg(pr)
-    fix = [n for n in pg.nodes for c in calls_in(n) if any(q.startswith(f"{SP}:_fixup_main") for q in e.callees_of(c))]
+    fixq = {q for q, f_ in e.prog.funcs.items() if q.startswith(f"{SP}:") and any(
+        isinstance(x, ast.Call) and norm(x.func) in ("runpy.run_module", "runpy.run_path") for x in func_nodes(f_))}
+    if not fixq:
+        raise AnalysisError("spawn: the functions re-running the parent's __main__ (runpy.run_module / run_path) not found")
+    fix = [n for n in pg.nodes for c in calls_in(n) if e.callees_of(c) & fixq]
     ok = bool(fix) and all(any(t.kind == "test" and isinstance(t.ast, ast.Compare) and isinstance(t.ast.ops[0], ast.In) and isinstance(t.ast.left, ast.Constant)
                                and str(t.ast.left.value).startswith("init_main_from") and pg.on_branch(n, t, "T") for t in pg.nodes) for n in fix)
     R.check(ok, "R-MAIN-FLAG", "prepare() only fixes up __main__ when those keys were shipped", pr.short, "if 'init_main_from_name' in data", "__main__ is fixed up unconditionally",
@@ -864,6 +868,10 @@ def r_vendor(e, R):
                         n_dyn += 0 if lit else 1
                         R.check(not lit, "R-VENDOR", f"{mod.path}: the module run by the child (`-m`) is named dynamically", mname, f"-m {norm(y)}",
                                 "the child interpreter is started with a literal module name: a vendored copy starts another package's code or fails", f"{mod.path}:{n.lineno}")
+            # the same command built with str.format / % from a template: `"from {} import main; ...".format(main.__module__, ...)`
+            if isinstance(n, ast.Constant) and isinstance(n.value, str) and id(n) not in doc and re.search(r"(^|[;\s])(from|import)\s+(\{\w*\}|%s|%\(\w+\)s)", n.value):
+                n_dyn += 1
+                R.ok("R-VENDOR", f"{mod.path}: import in a code-string template names the module through a placeholder (`{n.value.strip()[:40]}`)", f"{mod.path}:{n.lineno}")
             if isinstance(n, ast.JoinedStr):
                 txt = "".join(v.value if isinstance(v, ast.Constant) else "\0" for v in n.values)
                 if re.search(r"(^|[;\s])(from|import)\s+\0", txt):
